@@ -12,7 +12,8 @@ from pipeline import correspondence, field, parse_loc, pipe_req
 from props.graphfacts import CORPUS, conclude, replay  # noqa: F401
 
 THEOREMS = ["Rva.skipWs_idem", "Rva.lexNext_skipWs", "Rva.inst_case_insensitive", "Rva.directive_case_insensitive", "Rva.imm_notation", "Rva.reg_alias", "Rva.mnemonics_nodup",
-            "Rva.blank_item_invisible", "Rva.blank_lines_invisible", "Rva.label_own_line"]
+            "Rva.blank_item_invisible", "Rva.blank_lines_invisible", "Rva.label_own_line",
+            "Rva.trailing_comment_invisible", "Rva.recover_comment"]
 
 
 def located(blk, model_blk=()):
@@ -61,7 +62,7 @@ def located(blk, model_blk=()):
 
 def run(res, tier, seed):
     rng = random.Random(seed)
-    proof_ok = proof_stage(res, "Rva.Proofs.C13", THEOREMS, extra_modules=["Rva.Proofs.Tables", "Rva.Proofs.C13b"])
+    proof_ok = proof_stage(res, "Rva.Proofs.C13", THEOREMS, extra_modules=["Rva.Proofs.Tables", "Rva.Proofs.C13b", "Rva.Proofs.C13c"])
     n = 100 if tier == "quick" else 1500
     base = [c for c in CORPUS if "t0,B" not in c]
     for _ in range(n):
